@@ -65,6 +65,7 @@ instance : FloatOps Float where
   div := (· / ·)
   neg := (- ·)
   abs := Float.abs
+  addZero x := x + 0.0
   isNaN := Float.isNaN
   maxFinite := floatMax
   ofInt i := let y := intToFloat i; if y.isInf then none else some y
